@@ -167,6 +167,7 @@ DEVIATIONS = ("D_BlockingGet", "D_NoWakeOnClose", "D_ServerEofIgnored", "D_Setup
 CASES = [(role, cause, point) for role in ("client", "server")
          for cause, points in (("local", ("open", "open-inbound", "open-outbound")),
                                ("dpr", ("open", "open-inbound", "open-outbound", "closing")),
+                               ("dpr-invalid", ("open", "open-inbound")),
                                ("eof", ("setup", "wait-cea", "open", "open-inbound", "open-partial", "open-outbound", "closing")),
                                ("rst", ("setup", "wait-cea", "open", "open-partial", "open-outbound", "closing")),
                                ("refused", ("refused",)))
@@ -243,7 +244,7 @@ def run(rep):
     # ---- sweeps
     nsweep = 0
     for victim in ("worker", "consumer", "sender", "psm"):
-        for cause in ("eof", "dpr"):
+        for cause in (("eof", "dpr", "cer-close") if victim == "psm" else ("eof", "dpr")):
             for k in range(0, 300):
                 verdict, info = assoc.run_life_sweep(victim, k, cause)
                 nsweep += 1
